@@ -363,12 +363,13 @@ def random_sentence(g, rng, max_len=10):
         if not alts:
             return False
         if depth > 10:
-            # finish by the alternative of minimal derivation height (always terminates)
-            alts = [a for a in alts if alt_height(a) < INF]
-            if not alts:
+            # finish by an alternative that realises the symbol's minimal derivation
+            # height: the children then have strictly smaller heights (always terminates)
+            best = [a for a in rules[sym] if alt_height(a) == height[sym] and height[sym] < INF]
+            if not best:
                 return False
-            alts.sort(key=alt_height)
-            a = alts[0]
+            fit = [a for a in best if a in alts]
+            a = (fit or best)[0]
         else:
             a = rng.choice(alts)
         need = sum(m[s] if s in rules else 1 for s in a["rhs"])
